@@ -1,6 +1,7 @@
 import Rbacx.Model.Tools
 import Rbacx.Properties.C02
 import Rbacx.Proofs.GuardWitness
+import Rbacx.Proofs.Lint
 /-
   C17 — one document, one meaning: formats, tools and default algorithm agree.
 
@@ -276,5 +277,116 @@ theorem c17_compiler_default_counterexample (o : Oracle) :
     (compiledDecide { o, env := f1Env, checker := none } c f1Policy).map (·.decision) = .ok "permit" ∧
     (evaluate { o, env := f1Env, checker := none } c.interpDefault f1Policy).map (·.decision) = .ok "deny" := by
   constructor <;> rfl
+
+/-! ### the linter's overlap analysis (model `Model/Lint.lean`; the per-run obligation `Run/C17_lint_translated.lean` proves the translated
+    source of `analyze_policy` / `analyze_policyset` equal to `Lint.analyzePolicy` / `Lint.analyzePolicyset` with `dflt = "deny-overrides"`) -/
+
+/-- a policy that names no algorithm (absent / null / "" — any falsy value) is analysed under deny-overrides whenever the default
+    constant is "deny-overrides": it gets exactly the issues — all of them, hence the algorithm-dependent ones — of the same document
+    with `"algorithm": "deny-overrides"` written out, whatever the first pass and the helper functions are -/
+theorem c17_lint_default (E : Lint.Env) (hd : E.dflt = "deny-overrides") (policy ra : PyVal)
+    (h : (policy.get "algorithm").truthy = false) :
+    Lint.lintAlgorithm E.o E.dflt policy = "deny-overrides" ∧
+    Lint.algoIssues E policy = Lint.algoIssues E (Py.setItem policy "algorithm" (.str "deny-overrides")) ∧
+    Lint.analyzePolicy E policy ra = Lint.analyzePolicy E (Py.setItem policy "algorithm" (.str "deny-overrides")) ra := by
+  have h1 : Lint.lintAlgorithm E.o E.dflt policy = "deny-overrides" := hd ▸ Lint.lintAlgorithm_default E.o policy h
+  have hr : Lint.rulesOf (Py.setItem policy "algorithm" (.str "deny-overrides")) = Lint.rulesOf policy := by
+    simp [Lint.rulesOf, Lint.get_setItem_other]
+  have hq : Lint.lintReq (Py.setItem policy "algorithm" (.str "deny-overrides")) ra = Lint.lintReq policy ra := by
+    simp [Lint.lintReq, Lint.get_setItem_other]
+  have h2 : Lint.lintAlgorithm E.o E.dflt (Py.setItem policy "algorithm" (.str "deny-overrides")) = "deny-overrides" := by
+    cases policy with
+    | dict kvs => exact Lint.lintAlgorithm_explicit _ _ _ (Lint.get_setItem_same_dict kvs _ _)
+    | _ => exact h1
+  refine ⟨h1, ?_, ?_⟩
+  · simp only [Lint.algoIssues, hr, h1, h2]
+  · simp only [Lint.analyzePolicy, hr, hq, h1, h2]
+
+/-- under deny-overrides the algorithm-dependent issues are the deny overlaps, and only those -/
+theorem c17_lint_deny_overrides_issues (acts : PyVal → PyVal) (cov unr : PyVal → PyVal → PyVal) (rs : List PyVal) :
+    Lint.overlapIssues acts cov unr "deny-overrides" rs = Lint.denyOverlapIssues acts cov rs := by
+  have : ("deny-overrides" = "first-applicable") = False := by decide
+  simp [Lint.overlapIssues, this]
+
+/-- the children of a set are analysed independently: the issues `analyze_policyset` reports with `policy_index = k` are exactly the
+    issues `analyze_policy` reports for the k-th child on its own, tagged — the right-hand side mentions neither the set's algorithm
+    (nor any other key of the set) nor the siblings -/
+theorem c17_lint_set_children_independent (E : Lint.Env) (policyset ra : PyVal) (k : Nat) (c : PyVal)
+    (hc : (Lint.childrenOf policyset)[k]? = some c) :
+    Lint.withIndex k (Lint.analyzePolicyset E policyset ra) = (Lint.analyzePolicy E c ra).map (Lint.tag k) := by
+  simp [Lint.analyzePolicyset, Lint.withIndex_children, hc]
+
+/-- consequently two sets — whatever their algorithms and their other children — report the same issues about a child they share
+    at the same position -/
+theorem c17_lint_set_children_shared (E : Lint.Env) (s1 s2 ra : PyVal) (k : Nat) (c : PyVal)
+    (h1 : (Lint.childrenOf s1)[k]? = some c) (h2 : (Lint.childrenOf s2)[k]? = some c) :
+    Lint.withIndex k (Lint.analyzePolicyset E s1 ra) = Lint.withIndex k (Lint.analyzePolicyset E s2 ra) := by
+  rw [c17_lint_set_children_independent E s1 ra k c h1, c17_lint_set_children_independent E s2 ra k c h2]
+
+/-- what is reported under deny-overrides, exactly: an OVERLAPPED_BY_DENY issue for the pair (earlier `i`, later `j`) is reported iff
+    rule `i` is a deny rule, it covers the resource of rule `j` and shares an action with it, AND `j` is the FIRST such rule after `i`
+    (the source `break`s after the first overlapped rule of each deny rule) -/
+theorem c17_lint_overlap_iff (acts : PyVal → PyVal) (cov unr : PyVal → PyVal → PyVal) (rs : List PyVal) (i j : Nat) :
+    Lint.mkIssue "OVERLAPPED_BY_DENY" (Lint.ruleAt rs j) (Lint.ruleAt rs i) j i ∈ Lint.overlapIssues acts cov unr "deny-overrides" rs ↔
+      i < j ∧ j < rs.length ∧ Lint.isDeny (Lint.ruleAt rs i) = true ∧ Lint.overlaps acts cov rs (Lint.ruleAt rs i) j = true ∧
+      ∀ k, i < k → k < j → Lint.overlaps acts cov rs (Lint.ruleAt rs i) k = false := by
+  rw [c17_lint_deny_overrides_issues, Lint.mem_denyOverlapIssues]
+  constructor
+  · rintro ⟨i', j', he, h⟩
+    obtain ⟨rfl, rfl⟩ := Lint.mkIssue_inj he
+    exact h
+  · intro h
+    exact ⟨i, j, rfl, h⟩
+
+/-- soundness: every algorithm-dependent issue reported under deny-overrides names an earlier DENY rule that covers the resource of
+    the later rule and shares an action with it -/
+theorem c17_lint_overlap_sound (acts : PyVal → PyVal) (cov unr : PyVal → PyVal → PyVal) (rs : List PyVal) (x : PyVal)
+    (hx : x ∈ Lint.overlapIssues acts cov unr "deny-overrides" rs) :
+    ∃ i j, x = Lint.mkIssue "OVERLAPPED_BY_DENY" (Lint.ruleAt rs j) (Lint.ruleAt rs i) j i ∧ i < j ∧ j < rs.length ∧
+      Lint.isDeny (Lint.ruleAt rs i) = true ∧ (cov (Lint.ruleAt rs i) (Lint.ruleAt rs j)).truthy = true ∧
+      Lint.shares (acts (Lint.ruleAt rs i)) (acts (Lint.ruleAt rs j)) = true := by
+  rw [c17_lint_deny_overrides_issues, Lint.mem_denyOverlapIssues] at hx
+  obtain ⟨i, j, rfl, h1, h2, h3, h4, _⟩ := hx
+  simp only [Lint.overlaps, Bool.and_eq_true] at h4
+  exact ⟨i, j, rfl, h1, h2, h3, h4.1, h4.2⟩
+
+/-- completeness, as far as the source goes: a deny rule `i` that overlaps a later rule `j` is reported — for `j` or for an earlier
+    rule `j'` it also overlaps (one report per deny rule) -/
+theorem c17_lint_overlap_complete (acts : PyVal → PyVal) (cov unr : PyVal → PyVal → PyVal) (rs : List PyVal) (i j : Nat)
+    (hij : i < j) (hj : j < rs.length) (hd : Lint.isDeny (Lint.ruleAt rs i) = true)
+    (ho : Lint.overlaps acts cov rs (Lint.ruleAt rs i) j = true) :
+    ∃ j', i < j' ∧ j' ≤ j ∧
+      Lint.mkIssue "OVERLAPPED_BY_DENY" (Lint.ruleAt rs j') (Lint.ruleAt rs i) j' i ∈ Lint.overlapIssues acts cov unr "deny-overrides" rs := by
+  -- the least overlapped rule after `i`
+  have : ∀ n, ∀ j, j - i ≤ n → i < j → j < rs.length → Lint.overlaps acts cov rs (Lint.ruleAt rs i) j = true →
+      ∃ j', i < j' ∧ j' ≤ j ∧ Lint.overlaps acts cov rs (Lint.ruleAt rs i) j' = true ∧
+        ∀ k, i < k → k < j' → Lint.overlaps acts cov rs (Lint.ruleAt rs i) k = false := by
+    intro n
+    induction n with
+    | zero => intro j h1 h2; omega
+    | succ n ih =>
+      intro j h1 h2 h3 h4
+      by_cases hex : ∃ k, i < k ∧ k < j ∧ Lint.overlaps acts cov rs (Lint.ruleAt rs i) k = true
+      · obtain ⟨k, hk1, hk2, hk3⟩ := hex
+        obtain ⟨j', a, b, c, d⟩ := ih k (by omega) hk1 (by omega) hk3
+        exact ⟨j', a, by omega, c, d⟩
+      · refine ⟨j, h2, Nat.le_refl _, h4, fun k hk1 hk2 => ?_⟩
+        cases hov : Lint.overlaps acts cov rs (Lint.ruleAt rs i) k
+        · rfl
+        · exact absurd ⟨k, hk1, hk2, hov⟩ hex
+  obtain ⟨j', a, b, c, d⟩ := this (j - i) j (Nat.le_refl _) hij hj ho
+  exact ⟨j', a, b, (c17_lint_overlap_iff acts cov unr rs i j').2 ⟨a, by omega, hd, c, d⟩⟩
+
+/-- non-vacuity: a deny rule before a permit rule it overlaps is reported (helpers: every rule has the action "read", every resource
+    is covered) -/
+example :
+    let d : PyVal := .dict [("id", .str "d"), ("effect", .str "deny")]
+    let p : PyVal := .dict [("id", .str "p"), ("effect", .str "permit")]
+    Lint.mkIssue "OVERLAPPED_BY_DENY" p d 1 0 ∈
+      Lint.overlapIssues (fun _ => .list [.str "read"]) (fun _ _ => .bool true) (fun _ _ => .bool false) "deny-overrides" [d, p] := by
+  intro d p
+  refine (c17_lint_overlap_iff _ _ _ [d, p] 0 1).2 ⟨by omega, by simp, ?_, ?_, fun k h1 h2 => by omega⟩
+  · simp [Lint.isDeny, Lint.effectOf, Lint.ruleAt, d, PyVal.get, PyVal.lookup, PyVal.por, PyVal.truthy, PyVal.pyEq]
+  · simp [Lint.overlaps, Lint.shares, Py.iter, PyVal.truthy, PyVal.pyEq]
 
 end Rbacx.C17
